@@ -53,7 +53,10 @@ const (
 	c17EndBlock   = 0 // the client sent nothing more and keeps the stream open: a read blocks until the deadline
 	c17EndEOF     = 1 // the client closed its write side: (0, io.EOF) after the last byte
 	c17EndEOFData = 2 // as 1, but the FIN arrives with the last chunk: (n>0, io.EOF) - quic-go does this
+	c17EndReset   = 3 // the client reset the stream after the last byte: (0, some other error)
 )
+
+var errC17Reset = errors.New("c17: stream reset by peer")
 
 type c17Stream struct {
 	data     []byte
@@ -97,6 +100,8 @@ func (s *c17Stream) Read(p []byte) (int, error) {
 		switch s.end {
 		case c17EndEOF, c17EndEOFData:
 			return 0, io.EOF
+		case c17EndReset:
+			return 0, errC17Reset
 		}
 		if armed {
 			s.fired = true
@@ -610,7 +615,7 @@ func c17EnumerateTCP(sh *evidence.Shard) {
 		"splits": fmt.Sprintf("all 2^(n-1) chunkings for streams of <= %d bytes; longer streams: every chunking with <= %d cuts (3 primary configurations) / <= %d cuts (the other hooked configurations) over {1..8, each structural boundary -1/0/+1, n-1}; the header-over-limit template: <= 1 / 0 cuts",
 			fullMax, cutsPrimary, cutsOther),
 		"deadline":    "fires at the k-th Read call for every k the sniffer reaches (pure timeout, or delivered together with that read's chunk), or never",
-		"end":         []string{"client idle: read blocks until the deadline", "client FIN: (0,EOF)", "FIN with the last chunk: (n,EOF)"},
+		"end":         []string{"client idle: read blocks until the deadline", "client FIN: (0,EOF)", "FIN with the last chunk: (n,EOF)", "stream reset after the last byte: (0,other error)"},
 		"port_filter": []string{"nil", "contains the port", "excludes the port"}, "rewrite_domain": []bool{true, false},
 		"req_addr":            []string{"10.1.2.3:<port>", "[2001:db8::7]:<port>", "orig.example.net:<port>"},
 		"timeout":             "Sniffer.Timeout 0 (default) with the nil filter, 1.5s with the others",
@@ -695,7 +700,7 @@ func c17EnumerateTCP(sh *evidence.Shard) {
 					stop = true
 					return false
 				}
-				for _, end := range []int{c17EndBlock, c17EndEOF, c17EndEOFData} {
+				for _, end := range []int{c17EndBlock, c17EndEOF, c17EndEOFData, c17EndReset} {
 					c := base
 					c.Cuts = cuts
 					c.End = end
